@@ -103,6 +103,19 @@ func (s *Server) Port() string {
 
 func (s *Server) listenAndServe(addr string, handler http.Handler, context hap.Context) error {
 	server := http.Server{Addr: addr, Handler: handler}
+
+	// Event notifications must not be written in the middle of a response
+	server.ConnState = func(c net.Conn, state http.ConnState) {
+		if con, ok := c.(*hap.Connection); ok {
+			switch state {
+			case http.StateActive:
+				con.BeginResponse()
+			case http.StateIdle:
+				con.EndResponse()
+			}
+		}
+	}
+
 	return server.Serve(s)
 }
 
